@@ -37,7 +37,7 @@ package martian
 
 //@ iface RequestModifier.ModifyRequest
 //@   requires req != nil
-//@   modifies nReq, http.Request.*, url.URL.*, Session.hijacked, Session.secure, Context.skipRoundTrip, Context.skipLogging, Context.apiRequest
+//@   modifies nReq, http.Request.*, url.URL.*, Session.hijacked, Context.skipRoundTrip, Context.skipLogging, Context.apiRequest
 //@   ensures nReq == old(nReq) + 1
 //@   ensures req.URL != nil && req.Header != nil && req.Body != nil
 //@ iface ResponseModifier.ModifyResponse
@@ -153,6 +153,16 @@ package martian
 // ---------------------------------------------------------------------------------------------
 // The proxy core (proxy.go).
 
+// A secure session's connection is a TLS connection, possibly inside a traffic-shaping wrapper.
+//@ pred tlsLike(c net.Conn) = typeis(c, *tls.Conn) || (typeis(c, *trafficshape.Conn) && as(c, *trafficshape.Conn).gwrapsTLS)
+//@ pred secureInv(s *Session) = s.conn != nil && (s.secure ==> tlsLike(s.conn))
+
+//@ func (*Session).connection
+//@   serves C05
+//@   requires sessionIdle(s)
+//@   modifies s.mu.rheld
+//@   ensures result == s.conn && sessionIdle(s)
+
 //@ pred proxyReady(p *Proxy) = p != nil && p.reqmod != nil && p.resmod != nil && p.roundTripper != nil && tableIdle()
 
 //@ func (*Proxy).Closing
@@ -185,11 +195,12 @@ package martian
 //@   serves C01 C02 C03 C05 C07
 //@   noframe
 //@   requires proxyReady(p) && ctxIdle(ctx) && sessionIdle(ctx.session) && conn != nil && brw != nil && brw.Writer != nil && brw.Reader != nil
-//@   requires !ctx.session.hijacked
+//@   requires !ctx.session.hijacked && secureInv(ctx.session)
 //@   modifies nReq, nRes, nUp, nWrite, bufio.Writer.gFlushed, bufio.Writer.gFailed, wroteErr, gotReq, up0, res0, wr0, didLink, closingSeen, nConnClose, nWarn, lastWarnHeader, ctxs[*], ctxmu.wheld, ctxmu.rheld
 //@   modifies http.Request.*, url.URL.*, http.Response.*, Session.hijacked, Session.secure, Session.conn, Session.brw, Context.skipRoundTrip, Context.skipLogging, Context.apiRequest
 //@   modifies sync.RWMutex.wheld, sync.RWMutex.rheld, dialN, lastDialed, lastDialErr, tls.Conn.gclosed, trafficshape.Conn.Context
 //@   ensures[locks-released] tableIdle() && sessionIdle(ctx.session)
+//@   ensures[secure-session-has-a-tls-connection] secureInv(ctx.session)
 //@   ensures[response-modifier-runs-once-per-request-modifier] !ctx.session.hijacked ==> nRes - old(nRes) == nReq - old(nReq)
 //@   ensures[at-most-one-upstream-contact-per-exchange] nUp - old(nUp) <= nReq - old(nReq) && nReq >= old(nReq)
 //@   ensures[every-exchange-is-answered-or-the-connection-ends] !ctx.session.hijacked ==> nWrite - old(nWrite) == nReq - old(nReq) || closeable(result)
@@ -236,11 +247,12 @@ package martian
 //@   noframe
 //@   requires proxyReady(p) && ctxIdle(ctx) && sessionIdle(session) && session == ctx.session && conn != nil && brw != nil && brw.Writer != nil && brw.Reader != nil
 //@   requires req != nil && req.URL != nil && req.Header != nil && has(ctxs, req) && ctxs[req] == ctx && allocated(req)
-//@   requires !session.hijacked
+//@   requires !session.hijacked && secureInv(session)
 //@   modifies nReq, nRes, nUp, nWrite, bufio.Writer.gFlushed, bufio.Writer.gFailed, wroteErr, gotReq, up0, res0, wr0, didLink, closingSeen, nConnClose, nWarn, lastWarnHeader, ctxs[*], ctxmu.wheld, ctxmu.rheld
 //@   modifies http.Request.*, url.URL.*, http.Response.*, Session.hijacked, Session.secure, Session.conn, Session.brw, Context.skipRoundTrip, Context.skipLogging, Context.apiRequest
 //@   modifies sync.RWMutex.wheld, sync.RWMutex.rheld, dialN, lastDialed, lastDialErr, tls.Conn.gclosed, trafficshape.Conn.Context
 //@   ensures[locks-released] tableIdle() && sessionIdle(session)
+//@   ensures[secure-session-has-a-tls-connection] secureInv(session)
 //@   ensures[connect-runs-the-request-modifier] nReq >= old(nReq) + 1
 //@   ensures[response-modifier-runs-once-per-request-modifier] !session.hijacked ==> nRes - old(nRes) == nReq - old(nReq)
 //@   ensures[at-most-one-upstream-contact-per-exchange] nUp - old(nUp) <= nReq - old(nReq)
